@@ -77,7 +77,7 @@ def main():
         for r in ex.map(lambda m: run_one(m, tier, with_tests), ms):
             results.append(r)
             print('%-38s %-4s %-12s %s %s' % (r['id'], r['property'], r['status'], r.get('tests', ''), ' | '.join(r.get('mechs', []))[:150]), flush=True)
-    out = os.path.join(HERE, 'results_%s.json' % tier)
+    out = os.path.join(HERE, 'results_%s%s.json' % (tier, '' if only is None else '_partial'))
     with open(out, 'w') as f:
         json.dump(results, f, indent=1)
     missed = [r['id'] for r in results if r['status'] != 'CAUGHT' and not r['status'].startswith('NOT-APPLICABLE')]
